@@ -90,7 +90,7 @@ def run(ctx):
   ncyc = 12 if quick else 30
   cache = {}
   designs = (eng.directed_designs(ctx) + sv.stdlib_designs(ctx.tier) + sv.testcase_designs() +
-             flat_designs(ctx, 12 if quick else 250) + eng.gen_designs(ctx, 42 if quick else 500, ys_safe_fraction=0.75))
+             flat_designs(ctx, 10 if quick else 250) + eng.gen_designs(ctx, 34 if quick else 500, ys_safe_fraction=0.75))
   # --- Yosys text, flat port map included (hook: packed forms of struct inputs are added before Coq runs)
   orig_finish = eng.finish_case
   nforms = [0]
